@@ -5,6 +5,7 @@ import (
 	"math/big"
 	"testing"
 
+	"verif/cs"
 	"verif/eng"
 	"verif/gad"
 	"verif/rec"
@@ -39,6 +40,7 @@ type c07Replay struct {
 	Mode int      `json:"mode"`
 	In   []string `json:"in"`
 	Bits uint64   `json:"bits,omitempty"`
+	Prog *glProg  `json:"program,omitempty"`
 }
 
 // c07CheckOps returns "" or a description of the first wrong result.
@@ -115,10 +117,231 @@ func c07CheckReduce(m eng.Mode, x *big.Int, bits uint64) (string, string) {
 	return "", ""
 }
 
+// ---------- straight-line programs over the chip API (operation sequences) ----------
+// A program is a sequence of gadget calls over a pool of values; every result is compared with
+// integer arithmetic.  Run on the engine and on compiled R1CS / SCS systems, this reaches bugs
+// that need a particular composition of calls (e.g. a builder reusing the backing array of a
+// linear expression when one NoReduce result is used as the addend of two later calls).
+
+type glOp struct {
+	Op      string `json:"op"`
+	A, B, C int    `json:"-"`
+	Args    [3]int `json:"args"`
+}
+
+type glProg struct {
+	Backend string   `json:"backend"` // eng | r1cs | scs
+	Mode    int      `json:"mode"`
+	Inputs  []uint64 `json:"inputs"`
+	Ops     []glOp   `json:"ops"`
+}
+
+type progVal struct {
+	v       *big.Int
+	reduced bool
+	bits    int
+}
+
+// evalProg computes the expected integer value of every pool entry.
+func evalProg(p glProg) []*big.Int {
+	var pool []*big.Int
+	for _, x := range p.Inputs {
+		pool = append(pool, bu(x))
+	}
+	pm1 := new(big.Int).Sub(bigP, big.NewInt(1))
+	for _, o := range p.Ops {
+		a, b, c := pool[o.Args[0]], pool[o.Args[1]], pool[o.Args[2]]
+		r := new(big.Int)
+		switch o.Op {
+		case "Add":
+			r.Add(a, b).Mod(r, bigP)
+		case "Sub":
+			r.Sub(a, b).Mod(r, bigP)
+		case "Mul":
+			r.Mul(a, b).Mod(r, bigP)
+		case "MulAdd":
+			r.Mul(a, b).Add(r, c).Mod(r, bigP)
+		case "AddNoReduce":
+			r.Add(a, b)
+		case "SubNoReduce":
+			r.Mul(b, pm1).Add(r, a)
+		case "MulNoReduce":
+			r.Mul(a, b)
+		case "MulAddNoReduce":
+			r.Mul(a, b).Add(r, c)
+		case "Reduce":
+			r.Mod(a, bigP)
+		default:
+			panic("bad op " + o.Op)
+		}
+		pool = append(pool, r)
+	}
+	return pool
+}
+
+func progFn(p glProg) gad.Fn {
+	return func(api frontend.API, in []frontend.Variable) []frontend.Variable {
+		c := gl.New(api)
+		pool := make([]gl.Variable, 0, len(in)+len(p.Ops))
+		for _, x := range in {
+			pool = append(pool, glv(x))
+		}
+		for _, o := range p.Ops {
+			a, b, d := pool[o.Args[0]], pool[o.Args[1]], pool[o.Args[2]]
+			var r gl.Variable
+			switch o.Op {
+			case "Add":
+				r = c.Add(a, b)
+			case "Sub":
+				r = c.Sub(a, b)
+			case "Mul":
+				r = c.Mul(a, b)
+			case "MulAdd":
+				r = c.MulAdd(a, b, d)
+			case "AddNoReduce":
+				r = c.AddNoReduce(a, b)
+			case "SubNoReduce":
+				r = c.SubNoReduce(a, b)
+			case "MulNoReduce":
+				r = c.MulNoReduce(a, b)
+			case "MulAddNoReduce":
+				r = c.MulAddNoReduce(a, b, d)
+			case "Reduce":
+				r = c.Reduce(a)
+			}
+			pool = append(pool, r)
+		}
+		out := make([]frontend.Variable, len(pool))
+		for i := range pool {
+			out[i] = pool[i].Limb
+		}
+		return out
+	}
+}
+
+func genProg() *rapid.Generator[glProg] {
+	return rapid.Custom(func(t *rapid.T) glProg {
+		p := glProg{}
+		n := rapid.IntRange(2, 5).Draw(t, "inputs")
+		var meta []progVal
+		for i := 0; i < n; i++ {
+			x := genGL().Draw(t, "in")
+			p.Inputs = append(p.Inputs, x)
+			meta = append(meta, progVal{reduced: true, bits: 64})
+		}
+		steps := rapid.IntRange(2, 12).Draw(t, "steps")
+		ops := []string{"Add", "Sub", "Mul", "MulAdd", "AddNoReduce", "SubNoReduce", "MulNoReduce", "MulAddNoReduce", "MulAddNoReduce", "Reduce"}
+		var reducedIdx func() []int
+		reducedIdx = func() []int {
+			var o []int
+			for i, m := range meta {
+				if m.reduced {
+					o = append(o, i)
+				}
+			}
+			return o
+		}
+		for s := 0; s < steps; s++ {
+			op := rapid.SampledFrom(ops).Draw(t, "op")
+			pick := func(pool []int, name string) int { return pool[rapid.IntRange(0, len(pool)-1).Draw(t, name)] }
+			all := make([]int, len(meta))
+			for i := range all {
+				all[i] = i
+			}
+			// bias operands towards recent results so that values are reused in later calls
+			recent := all
+			if len(all) > 3 && rapid.Bool().Draw(t, "recent") {
+				recent = all[len(all)-3:]
+			}
+			var a, b, c int
+			var m progVal
+			switch op {
+			case "Add", "Sub", "Mul", "MulAdd":
+				ri := reducedIdx()
+				a, b, c = pick(ri, "a"), pick(ri, "b"), pick(ri, "c")
+				m = progVal{reduced: true, bits: 64}
+			case "Reduce":
+				a = pick(recent, "a")
+				b, c = a, a
+				if meta[a].bits > 206 {
+					a = pick(reducedIdx(), "a2")
+					b, c = a, a
+				}
+				m = progVal{reduced: true, bits: 64}
+			default:
+				a, b, c = pick(recent, "a"), pick(recent, "b"), pick(recent, "c")
+				var bits int
+				switch op {
+				case "AddNoReduce":
+					bits = maxInt(meta[a].bits, meta[b].bits) + 1
+				case "SubNoReduce":
+					bits = maxInt(meta[a].bits, meta[b].bits+64) + 1
+				case "MulNoReduce":
+					bits = meta[a].bits + meta[b].bits
+				case "MulAddNoReduce":
+					bits = maxInt(meta[a].bits+meta[b].bits, meta[c].bits) + 1
+				}
+				if bits > 200 {
+					// keep every intermediate far from the BN254 modulus and within Reduce's range
+					op = "Reduce"
+					b, c = a, a
+					if meta[a].bits > 206 {
+						a = pick(reducedIdx(), "a3")
+						b, c = a, a
+					}
+					m = progVal{reduced: true, bits: 64}
+				} else {
+					m = progVal{bits: bits}
+				}
+			}
+			p.Ops = append(p.Ops, glOp{Op: op, Args: [3]int{a, b, c}})
+			meta = append(meta, m)
+		}
+		return p
+	})
+}
+
+var progSystems = map[string]bool{}
+
+func runProg(p glProg) (string, string) {
+	want := evalProg(p)
+	in := u64s(p.Inputs)
+	fn := progFn(p)
+	switch p.Backend {
+	case "eng":
+		res, out := gad.Run(eng.Options{Mode: eng.Mode(p.Mode)}, in, fn)
+		if res.Outcome != eng.Accept {
+			return "program/eng-not-accepted", fmt.Sprintf("program %v on inputs %v: %s", p.Ops, p.Inputs, fmtRes(res))
+		}
+		for i := range want {
+			if out[i].Cmp(want[i]) != 0 {
+				return "program/eng-value", fmt.Sprintf("program %v on inputs %v: value #%d = %s, integer arithmetic gives %s", p.Ops, p.Inputs, i, out[i], want[i])
+			}
+		}
+	default:
+		kind := cs.R1CS
+		if p.Backend == "scs" {
+			kind = cs.SCS
+		}
+		mech := cs.MechForcedBits
+		if p.Mode == 1 {
+			mech = cs.MechNative
+		}
+		sys, err := cs.Compile(kind, mech, len(in), len(want), fn)
+		if err != nil {
+			return "program/compile", fmt.Sprintf("program %v does not compile for %s: %v", p.Ops, p.Backend, err)
+		}
+		if err := sys.Solve(in, want); err != nil {
+			return "program/" + p.Backend, fmt.Sprintf("program %v on inputs %v: compiled %s system rejects the honest witness with the integer-arithmetic results as expected outputs: %v", p.Ops, p.Inputs, p.Backend, truncate(err.Error(), 200))
+		}
+	}
+	return "", ""
+}
+
 func TestC07(t *testing.T) {
 	r := rec.New("C07")
 	defer r.Flush()
-	r.Rule("operand triples over Goldilocks: all 7^3 combinations of the edge set {0,1,2^32-1,2^32,2^63,p-2^32,p-1} (deterministic) plus rapid-generated triples (edges mixed with uniform), each evaluated through every base-field gadget (Add,Sub,Mul,MulAdd,*NoReduce,Reduce,Inverse) in one engine run on a drawn range-check flavour and compared with native uint64 arithmetic; Reduce/ReduceWithMaxBits inputs drawn from [0,2^b*p) (must be accepted and reduced) and from [2^b*p, r) (must not be mis-reduced).  Non-trivial = at least one operand is an edge value, or the integer a*b+c crosses a multiple of 2^64, or the reduce input is >= p.  Distinct = (operands, flavour).")
+	r.Rule("operand triples over Goldilocks: all 7^3 combinations of the edge set {0,1,2^32-1,2^32,2^63,p-2^32,p-1} (deterministic) plus rapid-generated triples (edges mixed with uniform), each evaluated through every base-field gadget (Add,Sub,Mul,MulAdd,*NoReduce,Reduce,Inverse) in one engine run on a drawn range-check flavour and compared with native uint64 arithmetic; Reduce/ReduceWithMaxBits inputs drawn from [0,2^b*p) (must be accepted and reduced) and from [2^b*p, r) (must not be mis-reduced).  Non-trivial = at least one operand is an edge value, or the integer a*b+c crosses a multiple of 2^64, or the reduce input is >= p.  Distinct = (operands, flavour).  (4) straight-line programs of 2..12 gadget calls over a pool of 2..5 inputs and all earlier results (operands biased to recent results so values are reused; NoReduce growth bounded below 2^200), executed on the engine and compiled to R1CS and SCS, every pool value compared with integer arithmetic; non-trivial program = some intermediate result is used by more than one later call.")
 	r.Assume("engine semantics of frontend.API (validated against gnark's own engine and compiled R1CS/SCS in the C06 check)", "honest hint functions as shipped")
 
 	var rp c07Replay
@@ -126,10 +349,15 @@ func TestC07(t *testing.T) {
 		if err != nil {
 			r.Infra(t, "replay: %v", err)
 		}
-		in := unstrs(rp.In)
+		var in []*big.Int
+		if rp.Kind != "program" {
+			in = unstrs(rp.In)
+		}
 		var k, d string
 		if rp.Kind == "ops" {
 			k, d = c07CheckOps(eng.Mode(rp.Mode), in[0].Uint64(), in[1].Uint64(), in[2].Uint64())
+		} else if rp.Kind == "program" {
+			k, d = runProg(*rp.Prog)
 		} else {
 			k, d = c07CheckReduce(eng.Mode(rp.Mode), in[0], rp.Bits)
 		}
@@ -208,6 +436,30 @@ func TestC07(t *testing.T) {
 		})
 		if k, d := c07CheckReduce(m, x, bits); k != "" {
 			r.Fail(rt, "C07/"+k, c07Replay{Kind: "reduce", Mode: int(m), In: strs([]*big.Int{x}), Bits: bits}, "%s", d)
+		}
+	})
+
+	// 4. operation sequences on the engine and on compiled systems
+	rapidCheck(t, "programs", tierN(900, 60000), func(rt *rapid.T) {
+		p := genProg().Draw(rt, "program")
+		p.Backend = rapid.SampledFrom([]string{"eng", "r1cs", "r1cs", "scs"}).Draw(rt, "backend")
+		p.Mode = rapid.IntRange(0, 1).Draw(rt, "mode")
+		reuse := 0
+		used := map[int]int{}
+		for _, o := range p.Ops {
+			for _, a := range o.Args {
+				used[a]++
+			}
+		}
+		for i, n := range used {
+			if i >= len(p.Inputs) && n > 1 {
+				reuse++
+			}
+		}
+		r.Case("program/"+p.Backend, reuse > 0, fmt.Sprint(p), func() any { return p })
+		if k, d := runProg(p); k != "" {
+			pp := p
+			r.Fail(rt, "C07/"+k, c07Replay{Kind: "program", Prog: &pp}, "%s", d)
 		}
 	})
 	r.Done()
